@@ -77,6 +77,7 @@ type SpecFunc struct {
 	Result string
 	Body   Expr // nil: uninterpreted
 	Macro  bool // state-dependent definition, expanded at use
+	Opaque bool // pred: a state-dependent definition kept behind a function symbol (see callPred)
 	Declared bool // fdef: a declared function symbol plus a defining axiom (usable in quantifier patterns)
 	File   string
 	Line   int
@@ -627,14 +628,14 @@ func splitTop(s string) []string {
 	return out
 }
 
-var reSpecHdr = regexp.MustCompile(`^(func|def|fdef|macro)\s+(\w+)\s*\(([^)]*)\)\s*([^=]+?)\s*(=\s*(.*))?$`)
+var reSpecHdr = regexp.MustCompile(`^(func|def|fdef|macro|pred)\s+(\w+)\s*\(([^)]*)\)\s*([^=]+?)\s*(=\s*(.*))?$`)
 
 func parseSpecFunc(s string) (*SpecFunc, error) {
 	m := reSpecHdr.FindStringSubmatch(s)
 	if m == nil {
 		return nil, fmt.Errorf("bad spec function %q", s)
 	}
-	sf := &SpecFunc{Name: m[2], Result: strings.TrimSpace(m[4]), Macro: m[1] == "macro", Declared: m[1] == "fdef"}
+	sf := &SpecFunc{Name: m[2], Result: strings.TrimSpace(m[4]), Macro: m[1] == "macro" || m[1] == "pred", Opaque: m[1] == "pred", Declared: m[1] == "fdef"}
 	for _, p := range splitTop(m[3]) {
 		parts := strings.SplitN(strings.TrimSpace(p), " ", 2)
 		if len(parts) != 2 {
